@@ -23,7 +23,7 @@ RULE = ('Part api: Hypothesis-generated NlaIII / scCHIC molecules on a random re
         '--multiprocess with a reference FASTA. Non-trivial: molecule with >=1 coverage gap and >=1 conflicting position.')
 ASSUMPTIONS = ['base calls are asserted only where every observation has phred >= 20: unanimous -> that base; two bases '
                'with the same number of observations all at one identical quality -> N; a base with more observations, each '
-               'at least as good as every observation of the others -> that base', 'pysam accepts/round-trips the records (trusted)']
+               'at least as good as every observation of the others -> that base (any number of different bases)', 'pysam accepts/round-trips the records (trusted)']
 
 CONTIG = 'chrC'
 
@@ -49,7 +49,25 @@ def strategy():
             gap = {'near': draw(st.integers(1, 8)), 'far': draw(st.integers(20, 90)), 'overlap': -draw(st.integers(1, 10)), 'none': 0, 'nested': 0}[r2]
             frags.append({'l1': l1, 'cig1': cig1, 'r2': r2, 'gap': gap, 'l2': draw(st.integers(15, 40)),
                           'q': draw(st.sampled_from([20, 30, 30, 40]))})
-        return {'ref': ref, 'method': method, 'rev': rev, 'site': site, 'frags': frags, 'errseed': errseed,
+        # planted conflicts: at up to 3 positions near the cut every fragment shows a drawn base at a drawn quality
+        # (three different bases, losers before the winner, equal counts ...)
+        plant = {}
+        for j in draw(st.lists(st.integers(0, 4), max_size=3, unique=True)):
+            pos = site + 5 + j if not rev else site - 5 - j
+            kind = draw(st.sampled_from(['losers_first', 'random', 'tie']))
+            if kind == 'losers_first':
+                x, y, z = draw(st.permutations('ACGT'))[:3]
+                bases = [x, y] + [z] * max(1, nf - 2)
+                quals = [draw(st.sampled_from([20, 30]))] * 2 + [40] * max(1, nf - 2)
+            elif kind == 'tie':
+                x, y = draw(st.permutations('ACGT'))[:2]
+                bases = [x, y] * nf
+                quals = [30] * (2 * nf)
+            else:
+                bases = draw(st.lists(st.sampled_from('ACGT'), min_size=nf, max_size=nf))
+                quals = draw(st.lists(st.sampled_from([20, 30, 40]), min_size=nf, max_size=nf))
+            plant[str(pos)] = [bases[:nf], quals[:nf]]
+        return {'ref': ref, 'method': method, 'rev': rev, 'site': site, 'frags': frags, 'errseed': errseed, 'plant': plant,
                 'conflict': conflict_q, 'max_N_span': draw(st.sampled_from([None, None, 0, 5, 50])),
                 'entry': draw(st.sampled_from(['deduplicate_majority', 'deduplicate_majority', 'write_pysam'])),
                 # history: a consensus is requested when only the first k fragments are associated, then the molecule grows
@@ -116,10 +134,13 @@ def mkseq(ref, start, ops, rng, q, case, fi, protect):
                         b = rng.choice([c for c in 'ACGT' if c != b])
                     elif x < 0.05:
                         b = 'N'
-                seq.append(b)
                 qq = q
                 if case['conflict'] == 'unequal' and rng.random() < 0.3:
                     qq = rng.choice([20, 30, 40])
+                pl = (case.get('plant') or {}).get(str(r + i))
+                if pl and (protect is None or not (protect[0] <= r + i < protect[1])):
+                    b, qq = pl[0][fi % len(pl[0])], pl[1][fi % len(pl[1])]
+                seq.append(b)
                 qual.append(qq)
             r += n
         elif o in 'IS':
@@ -272,14 +293,16 @@ def decidable(obs):
         bases.setdefault(b, []).append(q)
     if len(bases) == 1:
         return list(bases)[0]
-    if len(bases) == 2:
-        (b1, q1), (b2, q2) = bases.items()
-        if len(q1) == len(q2) and len(set(q1 + q2)) == 1:
-            return 'N'
-        if len(q1) > len(q2) and min(q1) >= max(q2):
-            return b1
-        if len(q2) > len(q1) and min(q2) >= max(q1):
-            return b2
+    # any number of different bases (all observations phred >= 20, so every further observation multiplies a base's
+    # likelihood by more than 3.9): the base with strictly the most observations, each at least as good as any
+    # observation of the other bases, is the most likely one; equal counts at one identical quality are undecidable
+    ranked = sorted(bases.items(), key=lambda kv: -len(kv[1]))
+    (b1, q1), (b2, q2) = ranked[0], ranked[1]
+    rest = [q for b, qs in ranked[1:] for q in qs]
+    if len(q1) > len(q2) and min(q1) >= max(rest):
+        return b1
+    if len(q1) == len(q2) and len(set(q1 + q2)) == 1 and all(len(qs) < len(q1) for b, qs in ranked[2:]):
+        return 'N'
     return None
 
 
